@@ -6,6 +6,7 @@ CONSTANTS
   MaxMods = 0
   WorkUnits = {}
   MaxCounter = 0
+  AllocWhileCounter = TRUE
   Strict = FALSE
 INVARIANTS NoPanic Stable Injective TempNamesDistinct ReadsOK ReadsComplete EqOK
 PROPERTIES NoLiveReclaimT FreshAfterReclaimT
